@@ -346,7 +346,7 @@ def run(prog: Program, res: Result) -> None:
     okrn = len(calls) == 1 and dotted(calls[0].func.value) == rn.params[2] and calls[0].args and dotted(calls[0].args[0]) == rn.params[3]
     if okrn:
         kws = {k.arg: k.value for k in calls[0].keywords}
-        mv = kws.get("mode")
+        mv = kws.get("mode") or (calls[0].args[1] if len(calls[0].args) > 1 else None)     # optimize(task, mode, workers)
         mv = origin(rn.node, mv) if isinstance(mv, ast.Name) else mv
         okrn = mv is not None and any(isinstance(x, ast.Name) and x.id == rn.params[4] for x in ast.walk(mv))
     res.ob(okrn, f"{rn.loc()} __run__: optimizer.optimize(task, mode=str(mode), ..)", "__run__")
@@ -433,7 +433,11 @@ def run(prog: Program, res: Result) -> None:
                     f"nested inside algorithm k-1's instead of <save_path>/<algorithm name>/")
     res.ob(n_lc == 0, f"{er.loc()} export_results: {len(floops)} loop(s), {n_lc} loop-carried path definitions", "export-loop")
     mk = [n for n in own_nodes(er) if isinstance(n, ast.Call) and isinstance(n.func, ast.Attribute) and n.func.attr == "mkdir"]
-    exp = [n for n in own_nodes(er) if isinstance(n, ast.Call) and isinstance(n.func, ast.Name) and n.func.id == "export_function"]
+    def _is_exporter(name_node):
+        src = origin(er.node, name_node)
+        return isinstance(src, ast.Call) and isinstance(src.func, ast.Name) and src.func.id == "getattr" and src.args \
+            and dotted(src.args[0]) == "self"
+    exp = [n for n in own_nodes(er) if isinstance(n, ast.Call) and isinstance(n.func, ast.Name) and _is_exporter(n.func)]
     oke = len(floops) == 1 and len(mk) == 1 and len(exp) == 1 and any(lp is a for a in ancestors(exp[0]) for lp in floops)
     if oke:
         a0 = exp[0].args[0] if exp[0].args else None
